@@ -570,7 +570,14 @@ class RoiSubsetStateNd(SubsetState):
         if not self.roi.defined():
             return np.zeros(raw_comps[0].shape, dtype=bool)
 
-        if raw_comps[0].ndim == data.ndim and all([att in data.pixel_component_ids for att in self._atts]):
+        # The special case below relies on the result being a regular grid,
+        # which index arrays do not give (even if they have data.ndim dimensions)
+        if view is None or view is Ellipsis or isinstance(view, slice):
+            regular_view = True
+        else:
+            regular_view = isinstance(view, tuple) and all(isinstance(v, slice) for v in view)
+
+        if regular_view and raw_comps[0].ndim == data.ndim and all([att in data.pixel_component_ids for att in self._atts]):
             # This is a special case - the ROI is defined in pixel space, so we
             # can apply it to a single slice and then broadcast it to all other
             # dimensions. We start off by extracting a slice which takes only
